@@ -176,8 +176,60 @@ fn mutation_histories_depth4() -> Result<(), String> {
   Ok(())
 }
 
+/// C05, bounded exhaustive over a value pool: every document member replaced by every value of a pool of junk / edge JSON
+/// (one member at a time, and every pair for the method-carrying members); an accepted document then answers every read
+/// accessor, method resolution with junk queries, verify_jws with junk tokens, and re-serialises to an equal document
+fn junk_documents_never_panic() -> Result<(), String> {
+  use identity_core::convert::ToJson;
+  let m = |id: &str, ctl: &str| format!(r#"{{"id":"{id}","controller":"{ctl}","type":"JsonWebKey","publicKeyJwk":{{"kty":"OKP","crv":"Ed25519","x":"11qYAYKxCrfVS_7TyWQHOg7hcvPapiMlrwIaaPcHURo"}}}}"#);
+  let pool: Vec<String> = vec!["null".into(), "true".into(), "0".into(), r#""""#.into(), r#""x""#.into(), r#""did:example:doc""#.into(), r#""did:example:doc#a""#.into(), r#""did:example:other#a""#.into(), r##""#a""##.into(),
+    r#""did:example:doc?q=1#a""#.into(), r#""did:example:doc/path""#.into(), r#""did:example:%4""#.into(), "[]".into(), "[null]".into(), r#"["did:example:doc#a"]"#.into(), r#"["did:example:doc#a","did:example:doc#a"]"#.into(), r#"["did:example:doc"]"#.into(),
+    "{}".into(), format!("[{}]", m("did:example:doc#a", "did:example:doc")), format!("[{},{}]", m("did:example:doc#a", "did:example:doc"), m("did:example:doc#a", "did:example:x")), format!("[{}]", m("did:example:other#a", "did:example:doc")),
+    format!("[{}]", m("did:example:doc", "did:example:doc")), format!("[{}]", m("#a", "did:example:doc")), format!("[{}]", m("did:example:doc#a", "")), format!("[{},\"did:example:doc#a\"]", m("did:example:doc#a", "did:example:doc")),
+    r#"[{"id":"did:example:doc#a","controller":"did:example:doc","type":"X","publicKeyMultibase":""}]"#.into(), r#"[{"id":"did:example:doc#a","controller":"did:example:doc","type":"X","publicKeyJwk":{"kty":"OKP","crv":"Ed25519","x":"","d":"AA"}}]"#.into(),
+    r#"[{"id":"did:example:doc#a","type":"LinkedDomains","serviceEndpoint":"https://x.example"}]"#.into(), r#"[{"id":"did:example:doc#a","type":[],"serviceEndpoint":[]}]"#.into(), r#"[{"id":"did:example:doc#a","type":"T","serviceEndpoint":{"a":[]}}]"#.into(),
+    r#"[{"id":"did:example:doc#a","type":"RevocationBitmap2022","serviceEndpoint":"data:application/octet-stream;base64,AAAA"}]"#.into(), r#"[{"id":"did:example:doc","type":"T","serviceEndpoint":"x:y"},{"id":"did:example:doc","type":"T","serviceEndpoint":"x:y"}]"#.into()];
+  let members = ["id", "controller", "alsoKnownAs", "verificationMethod", "authentication", "assertionMethod", "keyAgreement", "capabilityDelegation", "capabilityInvocation", "service", "extra"];
+  fn build(over: &[(&str, &str)]) -> String {
+    let mut t: Vec<(String, String)> = vec![("id".into(), "\"did:example:doc\"".into())];
+    for (k, v) in over { t.retain(|(k2, _)| k2 != k); t.push((k.to_string(), v.to_string())); }
+    format!("{{{}}}", t.iter().map(|(k, v)| format!("\"{k}\":{v}")).collect::<Vec<_>>().join(","))
+  }
+  fn probe(json: String) -> Result<bool, String> {
+    let j2 = json.clone();
+    let r = catch_unwind(move || -> Result<bool, String> {
+      let Ok(d) = CoreDocument::from_json(&j2) else { return Ok(false) };
+      let _ = (d.id().to_string().len(), d.controller().map(|c| c.len()), d.also_known_as().len(), d.verification_method().len(), d.service().len(), d.properties().len(), d.methods(None).len());
+      for (rel, _) in RELS { let _ = d.methods(Some(MethodScope::VerificationRelationship(rel))).len(); }
+      for q in ["did:example:doc#a", "#a", "a", "", "#", "did:example:other#a", "did:example:doc", "did:example:doc?x#a", "%", "did:example:doc#%4"] {
+        let _ = d.resolve_method(q, None).map(|m| m.id().to_string());
+        for (rel, _) in RELS { let _ = d.resolve_method(q, Some(MethodScope::VerificationRelationship(rel))).is_some(); }
+        let _ = d.resolve_service(q).map(|s| s.id().to_string());
+      }
+      let accept_all = JwsVerifierFn::from(|_i: VerificationInput, _k: &Jwk| -> Result<(), SignatureVerificationError> { Ok(()) });
+      for hdr in [r#"{"alg":"EdDSA","kid":"did:example:doc#a"}"#, r##"{"alg":"EdDSA","kid":"#a"}"##, r#"{"alg":"EdDSA"}"#, r#"{"alg":"EdDSA","kid":""}"#, r#"{"alg":"EdDSA","kid":"did:example:other#a"}"#] {
+        let t = format!("{}.{}.{}", encode_b64(hdr), encode_b64("{}"), encode_b64([1u8; 64]));
+        let _ = d.verify_jws(&t, None, &accept_all, &JwsVerificationOptions::default()).is_ok();
+        let _ = d.verify_jws(&t, Some(b"x"), &accept_all, &JwsVerificationOptions::default().method_scope(MethodScope::authentication())).is_ok();
+      }
+      let back = CoreDocument::from_json(&d.to_json().map_err(|e| e.to_string())?).map_err(|e| format!("own serialisation refused: {e}"))?;
+      if back != d { return Err("re-deserialised document differs".into()); }
+      Ok(true)
+    }).map_err(|_| format!("CoreDocument PANICS for {json}"))?;
+    r.map_err(|e| format!("{json}: {e}"))
+  }
+  let (mut n, mut accepted) = (0u32, 0u32);
+  for k in members { for v in &pool { n += 1; if probe(build(&[(k, v)]))? { accepted += 1; } } }
+  let carriers = ["verificationMethod", "authentication", "keyAgreement", "service", "controller"];
+  for (i, a) in carriers.iter().enumerate() { for b in &carriers[i + 1..] { for va in &pool { for vb in &pool { n += 1; if probe(build(&[(a, va), (b, vb)]))? { accepted += 1; } } } } }
+  for c in ["null", "[]", "5", r#""x""#, "{}", r#"{"id":null}"#, "", "{", "\u{0}"] { probe(c.to_owned())?; n += 1; }
+  if n < 10_000 || accepted < 200 { return Err(format!("only {n} inputs, {accepted} accepted")); }
+  Ok(())
+}
+
 fn main() {
   std::panic::set_hook(Box::new(|_| {}));
+  w("cd_junk_documents_never_panic", junk_documents_never_panic);
   w("cd_mutation_histories_depth4_against_model", mutation_histories_depth4);
   w("cd_resolve_scope_exact", || {
     let d = doc();
